@@ -35,6 +35,7 @@ Open Scope N_scope.
 Definition ADMIN : N := 4369.        (* 0x1111: controller node id, CaseAdminSubject *)
 Definition MAX_FABRICS : nat := 5.
 Definition MAX_NETS : nat := 3.
+Definition VENDOR : N := 65521.      (* 0xFFF1: AdminVendorId of every AddNOC *)
 
 (** ** NocFlags *)
 Record flags := mkFlags {
@@ -80,7 +81,9 @@ Record fabric := mkFabric {
   f_root : N;          (* which root certificate (also determines the fabric id) *)
   f_nid  : N;          (* node id in the NOC *)
   f_key  : N;          (* which operational key *)
-  f_acl  : list N      (* subjects of the access control entries *)
+  f_acl  : list N;     (* subjects of the access control entries *)
+  f_label : N;         (* fabric label (0 = empty) *)
+  f_vid  : N           (* vendor id *)
 }.
 
 Record nets := mkNets {
@@ -135,6 +138,8 @@ Inductive op :=
 | OAddNoc (s : sess) (nid : N)
 | OUpdNoc (s : sess) (nid : N)
 | OAclW (s : sess) (k : N) (fail : bool) (* ACL := [admin; k]; fail: the store (if any) fails *)
+| OLabel (s : sess) (l : N) (fail : bool)  (* UpdateFabricLabel *)
+| OVid (s : sess) (v : N) (fail : bool)    (* SetVIDVerificationStatement(vendor id) *)
 | ONetAdd (s : sess) (k : N) (bc : option N)
 | ONetDel (s : sess) (k : N)
 | OComplete (s : sess) (fault : N)       (* 0 none; 1 / 2: the first / second store fails *)
@@ -148,7 +153,7 @@ Inductive op :=
 Inductive status :=
 | StOk | StGone | StAccess | StFsReq | StBusy | StAuth | StFail | StConstraint
 | StInvCmd | StMissingCsr | StConflict | StTableFull | StNotFound
-| StBounds | StIdNotFound | StCut (j : N).
+| StBounds | StIdNotFound | StLabelConflict | StCut (j : N).
 
 (** ** Fabric table: lookups by index *)
 Definition fget (i : N) (l : list fabric) : option fabric :=
@@ -410,7 +415,7 @@ Definition step (st : state) (o : op) : state * status :=
           | Some idx =>
             if Nat.leb MAX_FABRICS (length (s_fabs st)) then (st, StTableFull)
             else
-              let nf := mkFabric idx (s_root st) nid (s_key st) [ADMIN] in
+              let nf := mkFabric idx (s_root st) nid (s_key st) [ADMIN] 0 VENDOR in
               let fl' := fl_union fl FL_ADD_NOC in
               if is_pase then
                 (* [upgrade_fabric_idx]: only a PASE session still on fabric 0 *)
@@ -449,7 +454,7 @@ Definition step (st : state) (o : op) : state * status :=
           match fget sfab (s_fabs st) with
           | None => (st, StNotFound)
           | Some fb =>
-            let nf := mkFabric (f_idx fb) (f_root fb) nid (s_key st) (f_acl fb) in
+            let nf := mkFabric (f_idx fb) (f_root fb) nid (s_key st) (f_acl fb) (f_label fb) (f_vid fb) in
             (mkState (Armed sfab (fl_union fl FL_UPD_NOC)) (s_bc st) (s_win st) (s_pase st)
                      (fset nf (s_fabs st)) (s_nets st) (s_kv st)
                      (s_key st) (s_root st) (s_nkeys st) (s_case st), StOk)
@@ -466,10 +471,55 @@ Definition step (st : state) (o : op) : state * status :=
       else match fget sfab (s_fabs st) with
       | None => (st, StNotFound)
       | Some fb =>
-        let nf := mkFabric (f_idx fb) (f_root fb) (f_nid fb) (f_key fb) [ADMIN; k] in
+        let nf := mkFabric (f_idx fb) (f_root fb) (f_nid fb) (f_key fb) [ADMIN; k]
+                           (f_label fb) (f_vid fb) in
         let st1 := set_fabs st (fset nf (s_fabs st)) in
         let armed_for := match s_fs st with Armed f _ => f =? sfab | Idle => false end in
         if armed_for then (st1, StOk)
+        else if fail then (st1, StFail)
+        else (set_kv st1 (kv_apply (s_kv st) (KStoreFab nf)), StOk)
+      end
+    end
+  | OLabel s l fail =>
+    (* fabric.rs update_label, noc.rs handle_update_fabric_label: same store rule as the ACL *)
+    match sess_ctx st s with
+    | None => (st, StGone)
+    | Some (sfab, is_pase) =>
+      if sfab =? 0 then (st, StAccess)               (* fabric-scoped command *)
+      else if negb (allowed st sfab is_pase) then (st, StAccess)
+      else if existsb (fun g => negb (f_idx g =? sfab) && negb (f_label g =? 0) && (f_label g =? l))
+                      (s_fabs st) then (st, StLabelConflict)
+      else match fget sfab (s_fabs st) with
+      | None => (st, StNotFound)
+      | Some fb =>
+        let nf := mkFabric (f_idx fb) (f_root fb) (f_nid fb) (f_key fb) (f_acl fb) l (f_vid fb) in
+        let st1 := set_fabs st (fset nf (s_fabs st)) in
+        let armed_for := match s_fs st with Armed f _ => f =? sfab | Idle => false end in
+        if armed_for then (st1, StOk)
+        else if fail then (st1, StFail)
+        else (set_kv st1 (kv_apply (s_kv st) (KStoreFab nf)), StOk)
+      end
+    end
+  | OVid s v fail =>
+    (* noc.rs handle_set_vid_verification_statement: staged only while an AddNOC / UpdateNOC of the
+       fail-safe context is pending for this fabric ([has_pending_noc_for]); otherwise the WHOLE
+       in-memory fabric is stored at once *)
+    match sess_ctx st s with
+    | None => (st, StGone)
+    | Some (sfab, is_pase) =>
+      if sfab =? 0 then (st, StAccess)               (* fabric-scoped command *)
+      else if negb (allowed st sfab is_pase) then (st, StAccess)
+      else match fget sfab (s_fabs st) with
+      | None => (st, StNotFound)
+      | Some fb =>
+        let nf := mkFabric (f_idx fb) (f_root fb) (f_nid fb) (f_key fb) (f_acl fb) (f_label fb) v in
+        let st1 := set_fabs st (fset nf (s_fabs st)) in
+        let pending :=
+          match s_fs st with
+          | Armed f fl => (f =? sfab) && (fl_add_noc fl || fl_upd_noc fl)
+          | Idle => false
+          end in
+        if pending then (st1, StOk)
         else if fail then (st1, StFail)
         else (set_kv st1 (kv_apply (s_kv st) (KStoreFab nf)), StOk)
       end
@@ -547,7 +597,7 @@ Fixpoint run (st : state) (l : list op) : state * list (status * state) :=
 Definition exec (st : state) (l : list op) : state := fst (run st l).
 
 (** ** Initial states used by the correspondence cases *)
-Definition fab_init (i : N) : fabric := mkFabric i (i - 1) (8737 + i) (100 + i) [ADMIN].
+Definition fab_init (i : N) : fabric := mkFabric i (i - 1) (8737 + i) (100 + i) [ADMIN] 0 VENDOR.
 
 Definition init_state (window with_nets : bool) (nfab : N) (with_pase : bool) : state :=
   let fabs := if nfab =? 2 then [fab_init 1; fab_init 2] else [fab_init 1] in
